@@ -120,8 +120,11 @@ async fn check(ctx: &SessionContext, fresh: &SessionContext, plan: &Arc<dyn Exec
     out.back = Some(back.clone());
     let limited = text.contains("LimitExec") || text.contains("fetch=") || text.contains("TopK");
     if exec && out.ok {
-        let r1 = datafusion::physical_plan::collect(plan.clone(), ctx.task_ctx()).await;
-        let r2 = datafusion::physical_plan::collect(back, fresh.task_ctx()).await;
+        // a panic of the engine while EXECUTING a plan is not a serialisation matter: it counts as an execution error of that side
+        use futures::FutureExt;
+        let flat = |r: Result<datafusion::common::Result<Vec<RecordBatch>>, Box<dyn std::any::Any + Send>>| match r { Ok(x) => x, Err(p) => Err(datafusion::common::DataFusionError::Execution(format!("panic: {}", panic_msg(p)))) };
+        let r1 = flat(AssertUnwindSafe(datafusion::physical_plan::collect(plan.clone(), ctx.task_ctx())).catch_unwind().await);
+        let r2 = flat(AssertUnwindSafe(datafusion::physical_plan::collect(back, fresh.task_ctx())).catch_unwind().await);
         match (r1, r2) {
             (Ok(a), Ok(b)) => {
                 let (mut x, mut y) = (rows_of(&a), rows_of(&b));
@@ -607,7 +610,7 @@ fn main() {
     let seed: u64 = arg(&args, "--seed", "1").parse().unwrap();
     let n: u64 = arg(&args, "--n", "40").parse().unwrap();
     let dir = arg(&args, "--dir", &format!("/tmp/c36_{}", std::process::id()));
-    std::panic::set_hook(Box::new(|_| {}));
+    if std::env::var("HARNESS_BACKTRACE").is_err() { std::panic::set_hook(Box::new(|_| {})); }
     let _ = std::fs::remove_dir_all(&dir);
     std::fs::create_dir_all(&dir).unwrap();
 
